@@ -104,8 +104,10 @@ type frame struct {
 	defers []deferred
 }
 
+func (m *Machine) panicSiteFromStack() string { return m.lastSite }
+
 func (m *Machine) end(kind, msg string) {
-	if kind == "gopanic" {
+	if kind == "gopanic" || kind == "budget" {
 		m.lastSite = m.panicSite()
 	}
 	panic(pathEnd{kind, msg})
